@@ -69,6 +69,8 @@ type RunResult struct {
 	Panic      *PanicInfo
 	OverBudget bool  // VM step limit hit (verif hook), or the run was ended by the watchdog
 	Aborted    bool  // OverBudget because the watchdog ended the run (wall time / memory), not the step limit
+	MaxIter    int64 // largest iteration count of one loop activation (verif hook)
+	MaxDepth   int64 // deepest call nesting (verif hook)
 	Steps      int64 // VM instructions executed (verif hook; 0 without)
 }
 
@@ -83,6 +85,7 @@ func RunSafe(v *libvore.Vore, text string, limit int64) (res RunResult) {
 	defer func() {
 		runActive.Store(false)
 		res.Steps = vmSteps()
+		res.MaxIter, res.MaxDepth = vmProgress()
 		setStepLimit(0)
 		if r := recover(); r != nil {
 			if isBudgetPanic(r) {
@@ -104,6 +107,7 @@ func RunFilesSafe(v *libvore.Vore, files []string, mode engine.ReplaceMode, limi
 	defer func() {
 		runActive.Store(false)
 		res.Steps = vmSteps()
+		res.MaxIter, res.MaxDepth = vmProgress()
 		setStepLimit(0)
 		if r := recover(); r != nil {
 			if isBudgetPanic(r) {
